@@ -1,0 +1,62 @@
+//go:build verif
+
+package sdf
+
+import v2 "github.com/deadsy/sdfx/vec/v2"
+
+// VerifQtNode is a copy of one node of the quadtree a MeshSDF2 evaluates with.
+type VerifQtNode struct {
+	Level    int
+	Box      Box2
+	Center   v2.Vec
+	HalfSide float64
+	Leaf     bool            // leaf node (Pieces valid), otherwise Child valid
+	Pieces   []Line2         // the clipped line segments held by a leaf
+	Child    [4]*VerifQtNode // sw, se, nw, ne; nil = empty
+}
+
+func verifQtCopy(n *qtNode) *VerifQtNode {
+	if n == nil {
+		return nil
+	}
+	out := &VerifQtNode{Level: n.level, Box: n.box, Center: n.center, HalfSide: n.halfSide, Leaf: n.leaf != nil}
+	for _, li := range n.leaf {
+		out.Pieces = append(out.Pieces, *li.line)
+	}
+	for i := range n.child {
+		out.Child[i] = verifQtCopy(n.child[i])
+	}
+	return out
+}
+
+// VerifQtDump returns a copy of the quadtree of a Mesh2D/Polygon2D shape (nil for other shapes).
+func VerifQtDump(s SDF2) *VerifQtNode {
+	m, ok := s.(*MeshSDF2)
+	if !ok {
+		return nil
+	}
+	return verifQtCopy(m.qt)
+}
+
+// VerifQtMaxLevel is the depth limit of the quadtree.
+const VerifQtMaxLevel = qtMaxLevel
+
+// VerifLineIntersect is Box2.lineIntersect (nil = no piece in this box).
+func VerifLineIntersect(a Box2, l Line2) *Line2 {
+	return a.lineIntersect(&l)
+}
+
+// VerifQuadrants returns the four child boxes of a quadtree box.
+func VerifQuadrants(a Box2) [4]Box2 {
+	return [4]Box2{a.quad0(), a.quad1(), a.quad2(), a.quad3()}
+}
+
+// VerifLineWinding is lineInfo.winding for the segment l at p.
+func VerifLineWinding(l Line2, p v2.Vec) int {
+	return newLineInfo(&l).winding(p)
+}
+
+// VerifLineMinDistance2 is lineInfo.minDistance2 for the segment l at p.
+func VerifLineMinDistance2(l Line2, p v2.Vec) float64 {
+	return newLineInfo(&l).minDistance2(p)
+}
